@@ -731,14 +731,14 @@ func c08ParserTrace(c *Ctx) {
 	modelMissing := c.Drv.Ask("C08.parse", hx("1"), "-") == "bad-op"
 
 	srcs := c08GenParseSources(c)
-	traces := make([]c08PTrace, len(srcs))
+	rendered := make([]string, len(srcs)) // the real traces, rendered (the events are not kept)
 	var reqs [][]string
 	var reqIdx []int
 	nev, nbytes := 0, 0
 	reported := map[string]bool{}
 	for i, s := range srcs {
-		traces[i] = c08RealTrace(s.src)
-		t := &traces[i]
+		tr := c08RealTrace(s.src)
+		t := &tr
 		r.count("ptrace:"+s.src, len(t.events) > 3)
 		r.hist("ptrace-src:" + s.kind)
 		nbytes += len(s.src)
@@ -826,6 +826,7 @@ func c08ParserTrace(c *Ctx) {
 			continue
 		}
 		arg, _ := t.failArg()
+		rendered[i] = t.render()
 		reqs = append(reqs, []string{"C08.parse", hx(s.src), arg})
 		reqIdx = append(reqIdx, i)
 	}
@@ -835,13 +836,12 @@ func c08ParserTrace(c *Ctx) {
 		reps := c.Drv.AskBatch(reqs)
 		for j, rep := range reps {
 			i := reqIdx[j]
-			t := &traces[i]
 			if rep == "bad-op" {
 				r.hist("parse-trace:model-missing")
 				continue
 			}
 			ncmp++
-			g := t.render()
+			g := rendered[i]
 			if g == rep {
 				r.hist("parse-trace:model-agrees")
 				continue
